@@ -52,8 +52,7 @@ def stream_ops(F, E, fn, depth=0):
         if n.kind == 'call':
             g = F.fn(n.e['fn']) if n.e.get('fn') is not None else None
             if g is not None and g.tkey in ('ffsm2::detail::BitWriteStreamT', 'ffsm2::detail::BitReadStreamT') and g.m in ('write', 'read'):
-                width = (g.d.get('ftargs') or ['?'])[0]
-                width = int(width.strip("'").replace('\\x', '0x'), 16) if width.startswith("'\\x") else int(width) if width.isdigit() else width
+                width = (g.d.get('ftints') or [None])[0]
                 val = ir.pp(ir.strip(n.e['args'][0])) if n.e.get('args') else ''
                 acc2 = acc + [('w' if g.m == 'write' else 'r', width, val)]
             elif g is not None and has_ops(g):
@@ -192,10 +191,7 @@ def field_tables(run, F, E):
         wb = rec.get('consts', {}).get('WIDTH_BITS')
         if wfn and wb is not None:
             ft = (wfn[0].d.get('ftargs') or ['?'])[0]
-            try:
-                n = int(ft.strip("'").replace('\\x', ''), 16) if ft.startswith("'") else int(ft)
-            except ValueError:
-                n = None
+            n = (wfn[0].d.get('ftints') or [None])[0]
             run.ob('C12.a', 'the active index is written with exactly WIDTH_BITS (%s) bits' % wb, n == wb, where=fn.pat, detail={'write<N>': ft},
                    key='the active index is not written WIDTH_BITS wide')
     for fn in F.find('C_', 'deepLoadRequested'):
@@ -204,10 +200,7 @@ def field_tables(run, F, E):
         wb = rec.get('consts', {}).get('WIDTH_BITS')
         if rfn and wb is not None:
             ft = (rfn[0].d.get('ftargs') or ['?'])[0]
-            try:
-                n = int(ft.strip("'").replace('\\x', ''), 16) if ft.startswith("'") else int(ft)
-            except ValueError:
-                n = None
+            n = (rfn[0].d.get('ftints') or [None])[0]
             run.ob('C12.a', 'the active index is read with exactly WIDTH_BITS (%s) bits' % wb, n == wb, where=fn.pat, detail={'read<N>': ft},
                    key='the active index is not read WIDTH_BITS wide')
     for fn in F.find('StreamBufferT', 'clear'):
